@@ -57,6 +57,12 @@ def matrices(rng, n, per):
     sc = 10 ** (-(330.0 / max(n, 2)) - rng.uniform(0, 5)) if n >= 2 else 10 ** rng.uniform(-175, -160)
     out.append(("underflow", [[sc * (1.0 if i == j else 0.0) for j in range(n)] for i in range(n)]))
     out.append(("underflow", gen.symmetrize([[sc * x for x in r] for r in gen.spd_integer(rng, n)])))
+    if n >= 3:
+        # tiny leading pivots and a huge trailing one: the determinant is an ordinary number, partial products underflow
+        d = [1e-200, 1e-200] + [1e300] + [1.0] * (n - 3)
+        out.append(("mixed_scale", [[d[i] if i == j else 0.0 for j in range(n)] for i in range(n)]))
+        d2 = [10.0 ** -rng.randint(150, 170), 10.0 ** -rng.randint(150, 170)] + [10.0 ** rng.randint(280, 300)] + [rng.uniform(0.5, 2) for _ in range(n - 3)]
+        out.append(("mixed_scale", [[d2[i] if i == j else 0.0 for j in range(n)] for i in range(n)]))
     return out
 
 
@@ -170,6 +176,8 @@ def through_samples(ctx):
         s["tol"] = tol
         s["req"] = S.sample_request(s["case"], s["routing"], s["table"], s["xs"], tol=tol)
     S.run(ss)
+    from .. import sample_checks as SCk
+    SCk.generic_scalar_guard(ctx, [s for s in ss if s["tol"] >= 1e-13][:: 2], k=8, tol=1e-6)
     # the same requests with print_debug_info off (the runs above have it on: the Feynman parameters are read from the debug log)
     quiet = run_harness([dict(s["req"], debug=False) for s in ss])
     for s, qa in zip(ss, quiet):
